@@ -233,4 +233,35 @@ def nontrivial_own(case, model_obs):
 
 
 def nontrivial_any(case, model_obs):
+    if case.engine == "mxb":
+        return sum(1 for o in case.ops if o and o[0] == 1) >= 2 and any(o and o[0] == 2 for o in case.ops)
     return nontrivial_own(case, model_obs) if case.engine == "mxo" else nontrivial(case, model_obs)
+
+
+# ---------------------------------------------------------------- coroutines without a coro_queue (engine mxb, seq_mutex_bare.cpp)
+def gen_bare(seed, tier):
+    rng = random.Random(seed * 1000003 + 919)
+    n = 300 if tier == "quick" else 3000
+    cases = []
+    for c in range(n):
+        k = rng.randint(1, 5)
+        ops, started, inside_known = [], 0, []
+        rels = [rng.choice([0, 1, 2, 2]) for _ in range(k)]
+        pending_open = []
+        L = rng.randint(2, 14)
+        for _ in range(L):
+            if started < k and (rng.random() < 0.55 or not pending_open):
+                ops.append([1, started, rels[started]]); pending_open.append(started); started += 1
+            elif pending_open:
+                # mostly the coroutine that is inside (the oldest not yet opened), sometimes a wrong one (rejected)
+                x = pending_open[0] if rng.random() < 0.85 else rng.choice(pending_open)
+                ops.append([2, x])
+                if x == pending_open[0]: pending_open.pop(0)
+        if rng.random() < 0.7:
+            while started < k:
+                ops.append([1, started, rels[started]]); pending_open.append(started); started += 1
+            for x in pending_open: ops.append([2, x])
+        if rng.random() < 0.1:
+            ops.insert(rng.randrange(len(ops) + 1), rng.choice([[2, 9], [1, 7, 0], [3], [1, 0, 5], [2, -1]]))
+        cases.append(Case("mxb", "b%d" % c, ops))
+    return cases
